@@ -119,7 +119,7 @@ class Real(Case):
     prop = 'C13'
     name = 'C13.real'
     timeout_s = 600
-    bounds = ('HMAC over the real MD4, MD5, SHA-1, SHA-224/256/384/512, SHA-512/224, SHA-512/256 objects (leaves uninterpreted, lemmas in C01.leaf): '
+    bounds = ('HMAC over the real MD4, MD5, SHA-1, SHA-224/256/384/512, SHA-512/224, SHA-512/256 objects (leaves uninterpreted, lemmas in C01.leaf) and the BLAKE-224/256/384/512 objects (no abstraction): '
               'key lengths {0,1,bs-1,bs,bs+1,2bs}, |M| in {0,3}; spec = RFC 2104 over the C01 reference models (hmac/hashlib cross-check on replay)')
 
     def shapes(self, tier):
@@ -131,6 +131,12 @@ class Real(Case):
             for kl in (0, 1, bs - 1, bs, bs + 1, 2 * bs):
                 for ml in ((3,) if tier == 'quick' else (0, 3, bs)):
                     yield dict(algo=algo, kl=kl, ml=ml)
+        for size in (224, 256, 384, 512):
+            bs = 64 if size <= 256 else 128
+            for kl in (0, 1, bs - 1, bs, bs + 1, 2 * bs):
+                if tier == 'quick' and size in (224, 384) and kl not in (1, bs + 1):
+                    continue
+                yield dict(algo='blake%d' % size, kl=kl, ml=3)
 
     def mk(self, shape, src):
         return (src.bytes('K', shape['kl']), src.bytes('M', shape['ml']))
@@ -138,6 +144,9 @@ class Real(Case):
     def stubs(self, shape):
         from symx.harness import patched
         from props.c01 import hash_patches
+        if shape['algo'].startswith('blake'):
+            from symx.stubs import reverse_byte_patches
+            return patched(reverse_byte_patches())
         return patched(hash_patches(shape['algo']))
 
     @property
@@ -148,6 +157,9 @@ class Real(Case):
     def impl(self, shape, args):
         from crysp.hmac import HMAC
         from props.c01 import make, stub_obj
+        if shape['algo'].startswith('blake'):
+            from crysp.blake import Blake
+            return HMAC(Blake(int(shape['algo'][5:])), args[0])(args[1])
         h = make(shape['algo'])
         if self.symbolic:
             stub_obj(h, shape['algo'])
@@ -157,6 +169,10 @@ class Real(Case):
         from refs import mdsha
         from props.c01 import UFLeaves
         algo = shape['algo']
+        if algo.startswith('blake'):
+            from refs import blake as RB
+            size = int(algo[5:])
+            return rfc2104(lambda m: _b(RB.blake(size, list(m))), 64 if size <= 256 else 128, args[0], args[1])
         leaves = UFLeaves if self.symbolic else mdsha.StdLeaves
         H = lambda m: _b(mdsha.digest(algo, list(m), None, leaves))
         r = rfc2104(H, mdsha.BLOCK[algo], args[0], args[1])
